@@ -29,13 +29,18 @@ def build(cfg):
 
 
 def scorer(gib):
-    from sktime.performance_metrics.forecasting import MeanAbsoluteError, make_forecasting_scorer, mean_absolute_error
-    if not gib:
-        return MeanAbsoluteError()
+    """Signed forecast bias mean(y_pred - y_true): for the stub it equals the fold's table entry,
+    and unlike MAE it is not symmetric in its arguments."""
+    from sktime.performance_metrics.forecasting import make_forecasting_scorer
 
-    def negmae(y_true, y_pred):
-        return -mean_absolute_error(y_true, y_pred)
-    return make_forecasting_scorer(negmae, name="negmae", greater_is_better=True)
+    def bias(y_true, y_pred):
+        return float(np.mean(np.asarray(y_pred) - np.asarray(y_true)))
+
+    def negbias(y_true, y_pred):
+        return -bias(y_true, y_pred)
+    if not gib:
+        return make_forecasting_scorer(bias, name="bias", greater_is_better=False)
+    return make_forecasting_scorer(negbias, name="negbias", greater_is_better=True)
 
 
 def table_of(params, cfg):
@@ -106,7 +111,7 @@ def observe(cfg, variant=0):
             o["refit_window"] = [whole[0]["first"], whole[0]["last"]] if whole else [-1, -1]
             direct = clone(proto).set_params(**tuner.best_params_)
             direct.fit(y)
-            same = bool(np.allclose(tuner.predict([1, 2]).values, direct.predict([1, 2]).values)) and \
+            same = bool(np.allclose(tuner.predict([1, 2]).values, direct.predict([1, 2]).values, rtol=0, atol=1e-9)) and \
                 list(tuner.predict([1, 2]).index) == list(direct.predict([1, 2]).index)
             o["cutoff"] = int(tuner.cutoff)
             same = same and int(direct.cutoff) == o["cutoff"]
@@ -115,7 +120,7 @@ def observe(cfg, variant=0):
                 t2, d2 = copy.deepcopy(tuner), copy.deepcopy(direct)
                 t2.update(ynew, update_params=upd)
                 d2.update(ynew, update_params=upd)
-                same = same and bool(np.allclose(t2.predict([1, 2]).values, d2.predict([1, 2]).values)) \
+                same = same and bool(np.allclose(t2.predict([1, 2]).values, d2.predict([1, 2]).values, rtol=0, atol=1e-9)) \
                     and int(t2.cutoff) == int(d2.cutoff) == n + 1
             o["delegates"] = same
             o["notfitted"] = [False, False, False]
